@@ -88,6 +88,20 @@ func (fr *frame) evalCall(p *Path, e *ast.CallExpr) []PV {
 					args = tv.Vs
 				}
 			}
+			if iv, ok := rv.V.(*IfaceVal); ok && fn != nil {
+				// dynamic dispatch through the value's dynamic type
+				ms := types.NewMethodSet(iv.Dyn)
+				var dyn *types.Func
+				for i := 0; i < ms.Len(); i++ {
+					if ms.At(i).Obj().Name() == fn.Name() {
+						dyn, _ = ms.At(i).Obj().(*types.Func)
+					}
+				}
+				if dyn != nil {
+					out = append(out, fr.dispatchCall(q, e, dyn, iv.V, args)...)
+					continue
+				}
+			}
 			out = append(out, fr.dispatchCall(q, e, fn, rv.V, args)...)
 		}
 	}
@@ -97,6 +111,24 @@ func (fr *frame) evalCall(p *Path, e *ast.CallExpr) []PV {
 func (fr *frame) dispatchCall(p *Path, e *ast.CallExpr, fn *types.Func, recv Value, args []Value) []PV {
 	c := p.C
 	if fi, ok := c.U.FuncByObj[fn]; ok {
+		// an argument of a concrete type passed for an interface parameter (e.g. fmt.Stringer) keeps its dynamic type
+		sig := fi.Sig
+		for i := 0; i < sig.Params().Len() && i < len(args) && i < len(e.Args); i++ {
+			pt := sig.Params().At(i).Type()
+			if _, isIface := pt.Underlying().(*types.Interface); !isIface || types.Identical(pt, types.Universe.Lookup("error").Type()) {
+				continue
+			}
+			if sig.Variadic() && i == sig.Params().Len()-1 {
+				continue
+			}
+			if tv, ok := fr.info.Types[e.Args[i]]; ok && tv.Type != nil {
+				if _, argIface := tv.Type.Underlying().(*types.Interface); !argIface {
+					if _, already := args[i].(*IfaceVal); !already {
+						args = append(append([]Value(nil), args[:i]...), append([]Value{&IfaceVal{V: args[i], Dyn: tv.Type}}, args[i+1:]...)...)
+					}
+				}
+			}
+		}
 		return fr.callRepo(p, e, fi, recv, args)
 	}
 	pkg := ""
@@ -162,6 +194,15 @@ func (fr *frame) evalBuiltin(p *Path, e *ast.CallExpr, name string) []PV {
 			switch x := pv.V.(type) {
 			case *SliceVal:
 				out = append(out, PV{pv.P, x.Len})
+			case *ListVal:
+				out = append(out, PV{pv.P, mkInt(int64(len(x.Elems)))})
+			case *VariadicVal:
+				if x.Symbolic {
+					c.untranslatable(e.Pos(), "len of symbolic variadic parameter")
+					out = append(out, PV{pv.P, OpaqueVal{"len"}})
+					continue
+				}
+				out = append(out, PV{pv.P, mkInt(int64(len(x.Elems)))})
 			case Term:
 				if x.Sort == SStr {
 					out = append(out, PV{pv.P, tStrLen(x)})
@@ -205,6 +246,45 @@ func (fr *frame) evalBuiltin(p *Path, e *ast.CallExpr, name string) []PV {
 			out = append(out, PV{q, ns})
 		}
 		return out
+	case "make":
+		// make([]string, 0[, cap]): the empty list (capacity is not observable by the code in the subset)
+		if tv, ok := fr.info.Types[e.Args[0]]; ok && len(e.Args) >= 2 {
+			if sl, ok := tv.Type.Underlying().(*types.Slice); ok {
+				if b, ok := sl.Elem().Underlying().(*types.Basic); ok && b.Kind() == types.String {
+					if lv, ok := fr.info.Types[e.Args[1]]; ok && lv.Value != nil && lv.Value.String() == "0" {
+						var out []PV
+						for _, a := range fr.evalExprs(p, e.Args[1:]) { // evaluate len / cap for their safety obligations
+							out = append(out, PV{a[0].(*Path), &SliceVal{Known: true, Elems: []Term{}, Len: mkInt(0)}})
+						}
+						return out
+					}
+				}
+			}
+		}
+	case "new":
+		// new(T) for a struct type of the repository: a fresh zero object
+		if tv, ok := fr.info.Types[e.Args[0]]; ok {
+			if named, ok := tv.Type.(*types.Named); ok {
+				if ut, ok := named.Underlying().(*types.Struct); ok && named.Obj().Pkg() != nil {
+					if _, inRepo := pkgAlias[named.Obj().Pkg().Path()]; inRepo {
+						r := p.alloc(named.Obj().Name())
+						okAll := true
+						for j := 0; j < ut.NumFields(); j++ {
+							f := ut.Field(j)
+							srt := c.U.sortOfType(f.Type())
+							if srt == SOpaque {
+								okAll = false
+								continue
+							}
+							p.writeField(fieldKey(named, f), srt, r, zeroTerm(srt))
+						}
+						if okAll {
+							return one(p, r)
+						}
+					}
+				}
+			}
+		}
 	}
 	c.untranslatable(e.Pos(), "builtin "+name)
 	return one(p, OpaqueVal{name})
@@ -395,6 +475,8 @@ func (fr *frame) specEnvAtPoint(p *Path, pos token.Pos) *SpecEnv {
 
 func valueToSV(v Value, t types.Type) SV {
 	switch x := v.(type) {
+	case *IfaceVal:
+		return valueToSV(x.V, t)
 	case Term:
 		return SV{T: x, GoT: t}
 	case *SliceVal:
@@ -1096,6 +1178,13 @@ func (fr *frame) sprintfAt(p *Path, e *ast.CallExpr, format string, args []Value
 			}
 			// Stringer
 			at := fr.info.Types[e.Args[k+off]].Type
+			if iv, ok := a.(*IfaceVal); ok {
+				a, at = iv.V, iv.Dyn
+				if t, ok := asTerm(a); ok && t.Sort == SStr {
+					next = append(next, PV{st.P, append(append([]Term(nil), done...), t)})
+					continue
+				}
+			}
 			ms := types.NewMethodSet(at)
 			var strM *types.Func
 			for i := 0; i < ms.Len(); i++ {
@@ -1169,7 +1258,22 @@ func (fr *frame) rangeShape(s *ast.RangeStmt) *loopShape {
 // assigned (or address-taken) in BODY.
 func (fr *frame) forAsRange(s *ast.ForStmt) (*loopShape, ast.Expr, bool) {
 	init, ok := s.Init.(*ast.AssignStmt)
-	if !ok || init.Tok != token.DEFINE || len(init.Lhs) != 1 || len(init.Rhs) != 1 {
+	if !ok || init.Tok != token.DEFINE {
+		return nil, nil, false
+	}
+	var nobj *types.Var // "for i, n := A, len(S); i < n; i++": the captured length
+	var lenCall *ast.CallExpr
+	if len(init.Lhs) == 2 && len(init.Rhs) == 2 {
+		nid, ok := init.Lhs[1].(*ast.Ident)
+		if !ok {
+			return nil, nil, false
+		}
+		nobj, _ = fr.info.Defs[nid].(*types.Var)
+		lenCall, _ = init.Rhs[1].(*ast.CallExpr)
+		if nobj == nil || lenCall == nil {
+			return nil, nil, false
+		}
+	} else if len(init.Lhs) != 1 || len(init.Rhs) != 1 {
 		return nil, nil, false
 	}
 	iid, ok := init.Lhs[0].(*ast.Ident)
@@ -1194,6 +1298,13 @@ func (fr *frame) forAsRange(s *ast.ForStmt) (*loopShape, ast.Expr, bool) {
 		return nil, nil, false
 	}
 	call, ok := cond.Y.(*ast.CallExpr)
+	if nobj != nil {
+		yid, isID := cond.Y.(*ast.Ident)
+		if !isID || fr.info.Uses[yid] != nobj {
+			return nil, nil, false
+		}
+		call, ok = lenCall, true
+	}
 	if !ok || len(call.Args) != 1 {
 		return nil, nil, false
 	}
@@ -1236,7 +1347,7 @@ func (fr *frame) forAsRange(s *ast.ForStmt) (*loopShape, ast.Expr, bool) {
 		switch x := n.(type) {
 		case *ast.AssignStmt:
 			for _, l := range x.Lhs {
-				if id, ok := l.(*ast.Ident); ok && (fr.info.Uses[id] == iobj || fr.info.Uses[id] == sobj) {
+				if id, ok := l.(*ast.Ident); ok && (fr.info.Uses[id] == iobj || fr.info.Uses[id] == sobj || (nobj != nil && fr.info.Uses[id] == nobj)) {
 					bad = true
 				}
 				if ix, ok := l.(*ast.IndexExpr); ok {
@@ -1255,8 +1366,12 @@ func (fr *frame) forAsRange(s *ast.ForStmt) (*loopShape, ast.Expr, bool) {
 					bad = true
 				}
 			}
-		case *ast.BranchStmt, *ast.FuncLit, *ast.GoStmt, *ast.DeferStmt:
+		case *ast.FuncLit, *ast.GoStmt, *ast.DeferStmt:
 			bad = true
+		case *ast.BranchStmt:
+			if x.Label != nil || x.Tok == token.GOTO {
+				bad = true
+			}
 		}
 		return true
 	})
@@ -1270,7 +1385,10 @@ func (fr *frame) execFor(p *Path, s *ast.ForStmt) []*Path {
 	c := p.C
 	sh, sexpr, ok := fr.forAsRange(s)
 	if !ok {
-		c.untranslatable(s.Pos(), "statement *ast.ForStmt (only 'for i := A; i < len(S); i++' over an unmodified slice is in the subset)")
+		if ps, ok := fr.forConstRange(p, s); ok {
+			return ps
+		}
+		c.untranslatable(s.Pos(), "statement *ast.ForStmt (only 'for i := A; i < len(S); i++' over an unmodified slice and counting loops between constants are in the subset)")
 		return []*Path{p}
 	}
 	var out []*Path
@@ -1311,12 +1429,31 @@ func (fr *frame) execFor(p *Path, s *ast.ForStmt) []*Path {
 			for i := int(sh.KeyOff); i < len(x.Elems); i++ {
 				var next []*Path
 				for _, r := range ps {
+					if r.Brk {
+						next = append(next, r)
+						continue
+					}
 					r.Vars[sh.Key] = mkInt(int64(i))
-					next = append(next, fr.execStmt(r, s.Body)...)
+					next = append(next, clearCont(fr.execStmt(r, s.Body))...)
 				}
 				ps = next
 			}
-			out = append(out, ps...)
+			out = append(out, clearBrk(ps)...)
+		case *ListVal:
+			ps := []*Path{q}
+			for i := int(sh.KeyOff); i < len(x.Elems); i++ {
+				var next []*Path
+				for _, r := range ps {
+					if r.Brk {
+						next = append(next, r)
+						continue
+					}
+					r.Vars[sh.Key] = mkInt(int64(i))
+					next = append(next, clearCont(fr.execStmt(r, s.Body))...)
+				}
+				ps = next
+			}
+			out = append(out, clearBrk(ps)...)
 		default:
 			c.untranslatable(s.Pos(), fmt.Sprintf("counting loop over %T", xv.V))
 			out = append(out, q)
@@ -1344,12 +1481,16 @@ func (fr *frame) rangeSlice(p *Path, s *loopShape, sv *SliceVal) []*Path {
 		for i, el := range sv.Elems {
 			var next []*Path
 			for _, q := range ps {
+				if q.Brk {
+					next = append(next, q) // left the loop
+					continue
+				}
 				bindVal(q, mkInt(int64(i)), el)
-				next = append(next, fr.execStmt(q, s.Body)...)
+				next = append(next, clearCont(fr.execStmt(q, s.Body))...)
 			}
 			ps = next
 		}
-		return ps
+		return clearBrk(ps)
 	}
 	if fr.depth != 0 || fr.fi.Contract == nil {
 		c.untranslatable(s.Pos(), "loop over symbolic slice outside a function under contract")
@@ -1367,7 +1508,7 @@ func (fr *frame) rangeSlice(p *Path, s *loopShape, sv *SliceVal) []*Path {
 		env.Vars[ls.Index] = SV{T: i}
 		env.Vars["elems"] = SV{Slice: sv, T: Term{S: "slice", Sort: "Slice"}}
 		// loopvarN: the N-th variable declared outside the loop and assigned in its body (name-independent)
-		for k, obj := range assignedOuterVars(fr.info, s.Body) {
+		for k, obj := range loopCarriedVars(fr.info, fr.fi.Decl, s.Node, s.Body) {
 			if v, ok := q.Vars[obj]; ok {
 				env.Vars[fmt.Sprintf("loopvar%d", k)] = valueToSV(v, obj.Type())
 			}
@@ -1422,6 +1563,11 @@ func (fr *frame) rangeSlice(p *Path, s *loopShape, sv *SliceVal) []*Path {
 			if q.Dead {
 				continue
 			}
+			if q.Brk {
+				c.untranslatable(s.Pos(), "break in a loop over a symbolic slice (loops with invariants run to the end or return)")
+				q.Brk = false
+			}
+			q.Cont = false
 			evalInv(q, tIntBin("+", i, mkInt(1)), false, "looppres")
 		}
 	}
@@ -1575,4 +1721,199 @@ func builderIdent(e ast.Expr) (*ast.Ident, bool) {
 	}
 	id, ok := e.(*ast.Ident)
 	return id, ok
+}
+
+// forConstRange: "for k := C1; k <= C2; k++" / "k < C2" with constant bounds (at most 64 iterations) and k not assigned in
+// the body: unrolled exactly.
+func (fr *frame) forConstRange(p *Path, s *ast.ForStmt) ([]*Path, bool) {
+	init, ok := s.Init.(*ast.AssignStmt)
+	if !ok || init.Tok != token.DEFINE || len(init.Lhs) != 1 || len(init.Rhs) != 1 {
+		return nil, false
+	}
+	kid, ok := init.Lhs[0].(*ast.Ident)
+	if !ok {
+		return nil, false
+	}
+	kobj, _ := fr.info.Defs[kid].(*types.Var)
+	lo, ok1 := constInt(fr.info, init.Rhs[0])
+	cond, ok2 := s.Cond.(*ast.BinaryExpr)
+	if kobj == nil || !ok1 || !ok2 || (cond.Op != token.LEQ && cond.Op != token.LSS) {
+		return nil, false
+	}
+	cx, ok := cond.X.(*ast.Ident)
+	hi, ok3 := constInt(fr.info, cond.Y)
+	if !ok || fr.info.Uses[cx] != kobj || !ok3 {
+		return nil, false
+	}
+	if cond.Op == token.LSS {
+		hi--
+	}
+	post, ok := s.Post.(*ast.IncDecStmt)
+	if !ok || post.Tok != token.INC {
+		return nil, false
+	}
+	if pid, ok := post.X.(*ast.Ident); !ok || fr.info.Uses[pid] != kobj {
+		return nil, false
+	}
+	if hi-lo > 64 {
+		return nil, false
+	}
+	bad := false
+	ast.Inspect(s.Body, func(n ast.Node) bool {
+		switch x := n.(type) {
+		case *ast.AssignStmt:
+			for _, l := range x.Lhs {
+				if id, ok := l.(*ast.Ident); ok && fr.info.Uses[id] == kobj {
+					bad = true
+				}
+			}
+		case *ast.IncDecStmt:
+			if id, ok := x.X.(*ast.Ident); ok && fr.info.Uses[id] == kobj {
+				bad = true
+			}
+		case *ast.UnaryExpr:
+			if id, ok := x.X.(*ast.Ident); ok && x.Op == token.AND && fr.info.Uses[id] == kobj {
+				bad = true
+			}
+		case *ast.FuncLit, *ast.GoStmt, *ast.DeferStmt:
+			bad = true
+		case *ast.BranchStmt:
+			if x.Label != nil || x.Tok == token.GOTO {
+				bad = true
+			}
+		}
+		return true
+	})
+	if bad {
+		return nil, false
+	}
+	ps := []*Path{p}
+	for k := lo; k <= hi; k++ {
+		var next []*Path
+		for _, r := range ps {
+			if r.Brk {
+				next = append(next, r)
+				continue
+			}
+			r.Vars[kobj] = mkInt(k)
+			next = append(next, clearCont(fr.execStmt(r, s.Body))...)
+		}
+		ps = next
+	}
+	return clearBrk(ps), true
+}
+
+func constInt(info *types.Info, e ast.Expr) (int64, bool) {
+	tv, ok := info.Types[e]
+	if !ok || tv.Value == nil || tv.Value.Kind() != constant.Int {
+		return 0, false
+	}
+	return constant.Int64Val(tv.Value)
+}
+
+// loopCarriedVars: the outer variables assigned in the loop body that carry a value from one iteration to the next or
+// out of the loop. A scratch variable that every iteration overwrites before reading it, and that the code after the loop
+// overwrites before reading it (the classic re-used "err"), is not loop-carried; the invariants' loopvarK numbering skips
+// it, so that "if err := f(); err != nil" and "err = f(); if err != nil" with an outer err are the same loop to a contract.
+func loopCarriedVars(info *types.Info, fd *ast.FuncDecl, loop ast.Stmt, body *ast.BlockStmt) []*types.Var {
+	all := assignedOuterVars(info, body)
+	var out []*types.Var
+	for _, v := range all {
+		if !(writtenFirst(info, v, body.List) && deadAfter(info, fd, loop, v)) {
+			out = append(out, v)
+		}
+	}
+	return out
+}
+
+func mentions(info *types.Info, n ast.Node, v *types.Var) bool {
+	found := false
+	if n == nil {
+		return false
+	}
+	ast.Inspect(n, func(x ast.Node) bool {
+		if id, ok := x.(*ast.Ident); ok && (info.Uses[id] == v || info.Defs[id] == v) {
+			found = true
+		}
+		return true
+	})
+	return found
+}
+
+// plainWrite: st is "v = e" / "v, x = e..." / "if v = e; ..." (as an init) with v not read on the right-hand side
+func plainWrite(info *types.Info, st ast.Stmt, v *types.Var) bool {
+	as, ok := st.(*ast.AssignStmt)
+	if !ok || as.Tok != token.ASSIGN {
+		return false
+	}
+	isLhs := false
+	for _, l := range as.Lhs {
+		if id, ok := l.(*ast.Ident); ok && info.Uses[id] == v {
+			isLhs = true
+		} else if mentions(info, l, v) {
+			return false
+		}
+	}
+	for _, r := range as.Rhs {
+		if mentions(info, r, v) {
+			return false
+		}
+	}
+	return isLhs
+}
+
+// writtenFirst: in the statement list, the first statement that mentions v writes it without reading it
+func writtenFirst(info *types.Info, v *types.Var, list []ast.Stmt) bool {
+	for _, st := range list {
+		if !mentions(info, st, v) {
+			continue
+		}
+		if plainWrite(info, st, v) {
+			return true
+		}
+		if is, ok := st.(*ast.IfStmt); ok && is.Init != nil && plainWrite(info, is.Init, v) {
+			return true
+		}
+		return false
+	}
+	return false
+}
+
+// deadAfter: in the block that contains the loop, the statements after it overwrite v before reading it or never mention it
+func deadAfter(info *types.Info, fd *ast.FuncDecl, loop ast.Stmt, v *types.Var) bool {
+	var rest []ast.Stmt
+	found := false
+	ast.Inspect(fd.Body, func(n ast.Node) bool {
+		if b, ok := n.(*ast.BlockStmt); ok && !found {
+			for i, st := range b.List {
+				if st == loop {
+					rest = b.List[i+1:]
+					found = true
+					// the loop must sit directly in the function body: otherwise code after the enclosing statement could read v
+					if b != fd.Body {
+						rest = nil
+						found = false
+						return false
+					}
+				}
+			}
+		}
+		return !found
+	})
+	if !found {
+		return false
+	}
+	for _, st := range rest {
+		if !mentions(info, st, v) {
+			continue
+		}
+		if plainWrite(info, st, v) {
+			return true
+		}
+		if is, ok := st.(*ast.IfStmt); ok && is.Init != nil && plainWrite(info, is.Init, v) {
+			return true
+		}
+		return false
+	}
+	return true
 }
